@@ -77,7 +77,7 @@ func (w *W) runTasks() {
 	s.mask = sc.Sched.YieldMask
 	s.maxYields = sc.Sched.MaxYields
 	if s.maxYields <= 0 {
-		s.maxYields = 200000
+		s.maxYields = 400000
 	}
 	s.rs = scen.Mix(sc.Seed, 1)
 	if sc.Tapes != nil && sc.Tapes.Sched != nil {
